@@ -21,4 +21,4 @@ THOROUGH = CONFIGS + [
 
 
 def run(check):
-    usimrun.explore(check, OBS, CONFIGS if check.tier == 'quick' else THOROUGH)
+    usimrun.explore(check, OBS, CONFIGS if check.tier == 'quick' else THOROUGH, random=True)
